@@ -124,8 +124,15 @@ class Adapter(EnvAdapter):
         states, _ = inject.dump_states(cfg["inject"][0], cfg["inject"][1], limit=None)
         states = sorted(states, key=repr)
         if cfg.get("limit") and len(states) > cfg["limit"]:
-            step = len(states) / cfg["limit"]
-            states = [states[int(j * step)] for j in range(cfg["limit"])]
+            # an even sample, 4/5 of it from the states with food left (the finished ones are less telling)
+            def even(lst, m):
+                m = min(m, len(lst))
+                return [lst[int(j * len(lst) / m)] for j in range(m)] if m else []
+
+            live = [s for s in states if not all(s["food_items"]["eaten"])]
+            done = [s for s in states if all(s["food_items"]["eaten"])]
+            n_live = min(len(live), cfg["limit"] - min(len(done), cfg["limit"] // 5))
+            states = even(live, n_live) + even(done, cfg["limit"] - n_live)
         cfg["episodes"] = len(states)
         col = lambda f, dt: jnp.asarray(np.array([f(s) for s in states], dtype=dt))
         tab = dict(apos=col(lambda s: s["agents"]["position"], np.int32),
